@@ -379,7 +379,7 @@ def check_chunked(ck, LIVE, R="C04.chunked-total-limit"):
     ck.floor(R, n, 14, "evaluated chunked-body outcomes")
 
 
-def eval_gzip(ck, fi, chunk_len, start_total, limit_setup, chunk_size=8, ratio=4, decompressor=True):
+def eval_gzip(ck, fi, chunk_len, start_total, limit_setup, chunk_size=8, ratio=4, decompressor=True, member_end=False):
     """Fold _GzipMessageDelegate.data_received with a stub decompressor whose input bytes inflate ``ratio``-fold.
     ``limit_setup(self_obj, evaluator)`` installs the limit.  Returns [(kind, exc, forwarded sizes, max_length args)]."""
     from ..x_absint import Evaluator, Obj, UNK, Raised
@@ -410,10 +410,23 @@ def eval_gzip(ck, fi, chunk_len, start_total, limit_setup, chunk_size=8, ratio=4
             return None
         return NotImplemented
 
-    ev = Evaluator()
+    def new_dec(eof=False):
+        # zlib-level view as well (decompressobj.eof / unused_data), for code that looks at gzip member boundaries
+        return Obj("decompressor", unconsumed_tail=b"", decompressobj=Obj("zobj", eof=eof, unused_data=b"", unconsumed_tail=b""), eof=eof, unused_data=b"")
+
+    ev = Evaluator(funcs={"GzipDecompressor": lambda st, *a: new_dec()})
     ev.fallback = fb
     ev.max_unroll = chunk_len * ratio // chunk_size + 4
-    dec = Obj("decompressor", unconsumed_tail=b"") if decompressor else None
+
+    def inline(d):
+        name = d.split(".")[1]
+        if name in ("data_received", "headers_received", "finish", "on_connection_close") or not ck.repo.has_func(H1, "_GzipMessageDelegate." + name):
+            return None
+        f = ck.repo.func(H1, "_GzipMessageDelegate." + name)
+        return None if isinstance(f.node, ast.AsyncFunctionDef) else f.node
+
+    ev.inline = inline
+    dec = new_dec(eof=member_end) if decompressor else None
     me = Obj("self", _delegate=Obj("inner"), _chunk_size=chunk_size, _decompressed_body_size=start_total, _decompressor=dec, _forwarded=[], _ml_args=[])
     limit_setup(me, ev)
     outs = ev.run(fi.node, {"self": me, ps[0]: b"z" * chunk_len})
@@ -488,13 +501,14 @@ def check_gzip(ck, LIVE, R="C04.decompressed-limit"):
         (4, 0, 100, [8, 8], False),     # drained completely through unconsumed_tail
     ]
     n = 0
-    for clen, start, L, want_fw, refused in SC:
-        outs = eval_gzip(ck, fi, clen, start, setup(form, L))
+    scen = [x + (False,) for x in SC] + [x + (True,) for x in SC if x[1] > 0]
+    for clen, start, L, want_fw, refused, member_end in scen:
+        outs = eval_gzip(ck, fi, clen, start, setup(form, L), member_end=member_end)
         if not outs:
             raise AnalysisError("gzip data_received: no outcome")
         for kind, exc, fw, mls, total in outs:
             n += 1
-            tag = "%d compressed bytes (x4), %d inflated before, limit %d" % (clen, start, L)
+            tag = "%d compressed bytes (x4), %d inflated before%s, limit %d" % (clen, start, " (previous gzip member just ended)" if member_end else "", L)
             if None in fw:
                 raise AnalysisError("gzip data_received: forwarded data not decidable")
             if refused:
@@ -511,6 +525,21 @@ def check_gzip(ck, LIVE, R="C04.decompressed-limit"):
     for st in q.walk_body(init.node):
         if isinstance(st, (ast.Assign, ast.AnnAssign)) and "self._decompressed_body_size" in q.assigned_paths(st):
             ck.ob(R, init, st, isinstance(st.value, ast.Constant) and st.value.value == 0, "the decompressed total starts at 0")
+    # who may reset the running total: nothing that runs while body data is being received
+    methods = {f.name: f for f in ck.repo.direct_methods(H1, "_GzipMessageDelegate")}
+    calls = {nm: {q.dotted(c.func).split(".")[1] for c in q.calls(f.node) if (q.dotted(c.func) or "").startswith("self.") and (q.dotted(c.func) or "").count(".") == 1} for nm, f in methods.items()}
+    reach_dr = set()
+    work = ["data_received"]
+    while work:
+        x = work.pop()
+        for y in calls.get(x, ()):
+            if y in methods and y not in reach_dr:
+                reach_dr.add(y)
+                work.append(y)
+    for nm in sorted(reach_dr):
+        for st in q.walk_body(methods[nm].node):
+            if isinstance(st, (ast.Assign, ast.AnnAssign)) and st.value is not None and isinstance(st.value, ast.Constant) and any(p.startswith("self.") and "size" in p for p in q.assigned_paths(st)) and "self._decompressed_body_size" in q.assigned_paths(st):
+                ck.ob(R, methods[nm], st, False, "the cumulative decompressed size is not reset by anything data_received() calls (the limit is per message, not per gzip member / piece)")
     return {form[0]}
 
 
